@@ -88,7 +88,13 @@ def gen_dir(rng):
     return [c / n for c in v]
 
 
-EXTREME_U = [0.0, 1.0 - TWO53, TWO53, 0.5, 0.25, 0.75, 1e-300, 2.0 ** -32, 1 - 2.0 ** -32, 0.5 - TWO53]
+# canonical uniforms are multiples of 2^-53 in [0, 1): both end points are reachable values
+EXTREME_U = [0.0, 1.0 - TWO53, TWO53, 0.5, 0.25, 0.75, 2.0 ** -32, 1 - 2.0 ** -32, 0.5 - TWO53]
+
+
+def canon(x):
+    """round down to the 53-bit canonical grid"""
+    return min(math.floor(x * 2.0 ** 53) / 2.0 ** 53, 1.0 - TWO53)
 
 
 def gen_script(rng, n):
@@ -98,9 +104,9 @@ def gen_script(rng, n):
         if mode == 0 or (mode == 1 and rng.chance(1, 3)):
             out.append(rng.choice(EXTREME_U))
         elif mode == 2 and rng.chance(1, 2):
-            out.append(rng.unit() * 1e-6)
+            out.append(canon(rng.unit() * 1e-6))
         elif mode == 3 and rng.chance(1, 2):
-            out.append(1.0 - rng.unit() * 1e-6 - TWO53)
+            out.append(canon(1.0 - rng.unit() * 1e-6 - TWO53))
         else:
             out.append(rng.unit())
     return out
@@ -277,6 +283,10 @@ def mom(e, mass):
     return math.sqrt(e * (e + 2 * mass)) if e >= 0 else float("nan")
 
 
+def scale_of(e_in):
+    return e_in + 2 * EMASS
+
+
 def bad_rotate_axis(d):
     """incident direction in the branch of rotate() that drops the sign of sin φ"""
     s = math.sqrt(max(0.0, 1 - d[2] * d[2]))
@@ -304,6 +314,10 @@ def judge(name, line, out):
         bad("unparsable", "unparsable output " + out[:80])
         return fails
     free = cap - size
+    endpoint = "| u" in line and any(x in ("0000000000000000", "3fefffffffffffff", "3ca0000000000000")
+                                     for x in w[11:])
+    fam = ("kn" if name == "kn" else "gg" if name == "gg" else "brems" if name[:2] in ("sb", "rb", "cb")
+           else "pair" if name.startswith("bh") else "ioni")
     if r["action"] == "failed":
         if m["need"] == 0 or free >= m["need"]:
             bad("spurious-failure", "failed although %d slots were free (needs %d)" % (free, m["need"]))
@@ -316,7 +330,7 @@ def judge(name, line, out):
         if r["size"] != size:
             bad("unchanged-allocated", "allocator size changed on unchanged outcome")
         return fails
-    if m["need"] > 0 and free < m["need"]:
+    if m["need"] > 0 and free < (1 if name == "perelax" else m["need"]):
         bad("no-failure", "storage exhausted (%d free, needs %d) but outcome is %s"
             % (free, m["need"], r["action"]))
         return fails
@@ -330,7 +344,12 @@ def judge(name, line, out):
     # finiteness / ranges
     vals = [r["dep"]] + ([r["e"]] if r["e"] is not None else []) + [s[1] for s in r["secs"]]
     if any((not math.isfinite(v)) or v < 0 for v in vals):
-        bad("energy-range", "non-finite or negative energy", values=vals)
+        if all(math.isfinite(v) and v > -1e-15 * scale_of(e_in) for v in vals) and endpoint:
+            fails.append(("endpoint-negative-energy:" + fam, "%s: kinetic energy %.3g < 0 (rounding at "
+                          "the end of the sampling interval, uniform exactly 0 / 2^-53 / 1-2^-53)"
+                          % (name, min(vals)), dict(values=vals)))
+        else:
+            bad("energy-range", "non-finite or negative energy", values=vals)
         return fails
     scale = e_in + 2 * EMASS
     # energy conservation
@@ -344,8 +363,14 @@ def judge(name, line, out):
     # directions
     def unit_err(v):
         return abs(math.sqrt(sum(c * c for c in v)) - 1.0) if all(map(math.isfinite, v)) else float("inf")
+    def bad_dir(key, what):
+        if endpoint:
+            fails.append(("endpoint-nan-direction:" + fam, "%s: %s (cos θ rounds outside [-1,1] / "
+                          "0/0 when a uniform is exactly 0, 2^-53 or 1-2^-53)" % (name, what), {}))
+        else:
+            bad(key, what)
     if r["action"] == "scattered" and r["e"] > 0 and unit_err(r["dir"]) > 1e-12:
-        bad("direction", "outgoing direction not unit: %r" % (r["dir"],))
+        bad_dir("direction", "outgoing direction not unit: %r" % (r["dir"],))
     for pid, es, ds in r["secs"]:
         if pid == -1:
             if not (name == "kn" and es == 0.0):
@@ -354,12 +379,21 @@ def judge(name, line, out):
         if pid not in m["sec"]:
             bad("particle-type", "unexpected secondary particle id %d" % pid)
         if unit_err(ds) > 1e-12:
-            bad("secondary-direction", "secondary direction not unit: %r (E=%.6g)" % (ds, es))
+            bad_dir("secondary-direction", "secondary direction not unit: %r (E=%.6g)" % (ds, es))
         thr = m["thr"]
         if thr == "kn" and es < 1e-4:
             bad("threshold", "electron below the model's 1e-4 MeV cutoff: %.17g" % es)
         if thr == "cut" and es < cut:
-            bad("threshold", "secondary %.17g below production cut %.17g" % (es, cut))
+            if fam == "brems" and (es > cut * (1 - 1e-6) or (endpoint and es > cut * 0.9)):
+                fails.append(("brems-photon-below-cut-rounding", "%s: photon %.17g below production "
+                              "cut %.17g (relative %.2g; lower end of the sampling interval)"
+                              % (name, es, cut, (cut - es) / cut), {}))
+            elif fam == "ioni" and endpoint and es > cut * (1 - 1e-12):
+                fails.append(("endpoint-below-cut:ioni", "%s: delta ray %.17g below production cut "
+                              "%.17g by rounding (uniform at the end of its interval)"
+                              % (name, es, cut), {}))
+            else:
+                bad("threshold", "secondary %.17g below production cut %.17g" % (es, cut))
         if thr == "relax" and (pid, es, ds) != r["secs"][0] and es < cut:
             bad("threshold", "relaxation secondary %.17g below cut %.17g" % (es, cut))
     if name == "kn" and r["secs"] and r["secs"][0][0] == -1 and not (0 <= r["dep"] < 1e-4):
@@ -410,7 +444,7 @@ def check_rotate(rng, exe, n):
             fails.append(("exitdir:non-finite", "ExitingDirectionSampler result not finite", l, o, {}))
             continue
         dot = sum(a * b for a, b in zip(v, d))
-        if abs(dot - c) > 1e-9:
+        if abs(dot - c) > 3e-8:
             key = "rotate-near-z-negative-y" if bad_rotate_axis(d) else "exitdir:polar-cosine"
             fails.append((key, "ExitingDirectionSampler{cosθ=%.6g, dir=%r}: result·dir = %.9g "
                           "(|Δ| = %.3g)" % (c, d, dot, abs(dot - c)), l, o,
